@@ -119,8 +119,10 @@ CLAIMED = {
              "fast-diagonalisation solvers for ALL real values on bounded non-cubic sizes (eigenvector matrices, inverses, "
              "spectral weights and right-hand side are symbolic; numpy's own tensordot/multi_dot run on them): the result is "
              "the mode-product formula with the correct axis pairing and V / V^-1 placement, written to the whole output, rhs "
-             "untouched, independent of the spectral buffer's prior content. The matrix assembly, LAPACK's eigen-decomposition "
-             "and the spectral lemma (zero mode last, -Lap_h u = f - mean f, zero mean, real result of the working precision) "
+             "untouched, independent of the spectral buffer's prior content. The real constructor path is executed with LAPACK and "
+             "scipy.sparse by contract stubs: every 1-D matrix is the Neumann Laplacian/dx^2, eigenpairs stay together under the "
+             "descending sort, the weight tensor is 1/(sum of eigenvalues) with exactly one zero at the last index. LAPACK itself "
+             "and the residual of the discrete Neumann problem (-Lap_h u = f - mean f, zero mean, real result of the working precision) "
              "are covered by a BOUNDED native stand-in on small non-cubic grids, labelled as such and not counted as proved.",
         note=TRUST + " Assumed: LAPACK (eigh, inv), argsort, lemma M9. Sizes of the symbolic part bounded ((2,3),(3,2),(2,3,2); "
              "thorough adds (3,2,4)); the all-n mode-product abstract domain of the design was not built.",
